@@ -132,6 +132,15 @@ class CallMixin:
             t = rt.strip_ref()
             v, lo, hi = [self.hoist_pure(t, self.value_of(a)) for a in args]
             return f'(({v} < {lo}) ? {lo} : (({hi} < {v}) ? {hi} : {v}))'
+        if name == 'visit':
+            return self.visit_call(n, args)
+        if name == 'get_if' and len(args) == 1:
+            vt = self.tyof(args[0]).strip_ref().sub
+            i = self.variant_index(vt, rt.sub)
+            v = self.hoist_pure(self.tyof(args[0]), self.ex(args[0]))
+            return f'(({v})->index == {i} ? &({v})->_{i} : 0)'
+        if name == 'holds_alternative':
+            raise LoweringError('std::holds_alternative: alternative not recoverable from the AST dump')
         if name == 'zero' and not args:
             return '0'
         if name in ('max', 'min', 'lowest') and not args:
@@ -260,11 +269,26 @@ class CallMixin:
                 at = at[1:]
             rt = self.tyof(n)
             return self.user_call(cid, at, rt)
+        bt0 = bt.strip_ref().sub if me.get('isArrow') else bt.strip_ref()
+        if self.family(bt0) == 'array' and mname in ('size', 'max_size') and not self.has_side_effects(base):
+            return f'((uint64_t){bt0.args[1].n}ul)'
         obj = self.ex(base)
         if me.get('isArrow'):
             obj = deref(obj)
             bt = bt.strip_ref().sub
         return self.std_method(self.family(bt), bt.strip_ref(), mname, obj, args, n)
+
+    def has_side_effects(self, n):
+        k = n.get('kind')
+        if k in ('CallExpr', 'CXXMemberCallExpr', 'CXXOperatorCallExpr', 'CompoundAssignOperator', 'LambdaExpr'):
+            return True
+        if k == 'BinaryOperator' and n.get('opcode') == '=':
+            return True
+        if k == 'UnaryOperator' and n.get('opcode') in ('++', '--'):
+            return True
+        if k == 'CXXConstructExpr' and self.family(self.tyof(n)) == 'rec':
+            return True
+        return any(self.has_side_effects(c) for c in n.get('inner', []))
 
     def std_method(self, fam, bt, m, obj, args, n):
         A = lambda i: self.ex(args[i])
@@ -315,6 +339,12 @@ class CallMixin:
                 o = self.hoist_pure(bt, obj)
                 self.helpers.add('assert')
                 return f'(({ct}){{{o}.p, cxx_precond_le({A(0)}, {o}.n)}})'
+            if m == 'last':
+                ct = self.ctype(self.tyof(n))
+                o = self.hoist_pure(bt, obj)
+                c = self.hoist_pure(T('prim', 'unsigned long'), A(0))
+                self.helpers.add('assert')
+                return f'(({ct}){{{o}.p + ({o}.n - cxx_precond_le({c}, {o}.n)), {c}}})'
         if fam in ('vector', 'string', 'strview'):
             et = bt.args[0]
             s = self.short(et)
@@ -351,6 +381,9 @@ class CallMixin:
                     return f'{pre}_pop_front({addr(obj)})'
                 if m == 'insert' and len(args) == 3:
                     return f'{pre}_insert_range({addr(obj)}, {A(0)}, {A(1)}, {A(2)})'
+                if m == 'assign' and len(args) == 2 and self.tyof(args[0]).kind == 'ptr' and self.tyof(args[1]).kind == 'prim' \
+                        and fam == 'string':
+                    return f'(({obj}) = str_from_n({A(0)}, {A(1)}))'
                 if m == 'assign' and len(args) == 2 and self.tyof(args[0]).kind != 'prim':
                     return f'{pre}_assign_range({addr(obj)}, {A(0)}, {A(1)})'
                 if m == 'assign' and len(args) == 2:
@@ -423,6 +456,8 @@ class CallMixin:
             else:
                 at = [self.arg(a, ptypes[i] if i < len(ptypes) else None) for i, a in enumerate(args)]
             return self.user_call(cid, at, self.tyof(n))
+        if op == '()' and f0 == 'rec' and t0.strip_ref().name == 'std::random_device':
+            return 'cxx_nondet_u32()'
         if op == '[]':
             o = self.ex(args[0])
             i = self.ex(args[1])
@@ -496,6 +531,15 @@ class CallMixin:
             if self.family(t1) in ('string', 'strview'):
                 return f'str_append_n({addr(self.ex(args[0]))}, {self.hoist_pure(t1.strip_ref(), self.ex(args[1]))}.p, {self.hoist_pure(t1.strip_ref(), self.ex(args[1]))}.n)'
             return f'str_append_cstr({addr(self.ex(args[0]))}, {self.ex(args[1])})'
+        if f0 == 'iter' or (len(args) > 1 and self.family(self.tyof(args[1])) == 'iter'):
+            if len(args) == 2 and op in ('+', '-', '==', '!=', '<', '>', '<=', '>=', '+=', '-=', '='):
+                return f'({self.ex(args[0])} {op} {self.value_of(args[1])})'
+            if len(args) == 1 and op == '*':
+                return deref(self.ex(args[0]))
+            if len(args) == 1 and op == '->':
+                return self.ex(args[0])
+            if op == '[]':
+                return f'{self.ex(args[0])}[{self.ex(args[1])}]'
         if op in ('++', '--') and f0 == 'iter':
             return f'({op}{self.ex(args[0])})' if len(args) == 1 else f'({self.ex(args[0])}{op})'
         raise LoweringError(f'no rule for operator{op} on {t0!r} in {self.cur["name"]}')
@@ -713,6 +757,9 @@ class CallMixin:
                 return self.duration_convert(self.value_of(args[0]), self.dur_of(a0t), self.dur_of(t))
         if fam == 'pair' and len(args) == 2:
             return f'(({ct}){{{self.value_of(args[0])}, {self.value_of(args[1])}}})'
+        if fam == 'variant' and len(args) == 1:
+            i = self.variant_index(t, a0t.strip_ref())
+            return f'(({ct}){{.index = {i}, ._{i} = {self.value_of(args[0])}}})'
         raise LoweringError(f'no rule to construct {t!r} from ({", ".join(repr(self.tyof(a)) for a in args)}) '
                             f'in {self.cur["name"]}')
 
@@ -720,6 +767,9 @@ class CallMixin:
 
     def construct_rec(self, t, n, args):
         c = self.ctype(t)
+        from cxx2c import SYSREC
+        if t.name in SYSREC:
+            return f'(({c}){{0}})'
         ctor = n.get('ctorType', {}).get('qualType', '')
         if len(args) == 1 and self.tyof(args[0]).strip_ref().kind == 'rec' and \
                 self.ctype(self.tyof(args[0]).strip_ref()) == c:
@@ -735,7 +785,9 @@ class CallMixin:
         d = user[0]
         cid = self.canon(d['id'])
         cname = self.fnmap.get(cid) or self.request_fn(cid)
-        tmp = self.tmp('__obj')
+        target = getattr(self, 'construct_target', None)
+        self.construct_target = None
+        tmp = target or self.tmp('__obj')
         if self.cond_depth:
             raise LoweringError('constructor call in conditional operand')
         self.pre.append(f'{c} {tmp};')
@@ -747,6 +799,43 @@ class CallMixin:
             self.cur['maythrow'] = True
             self.pre.append(self.exc_check())
         return tmp
+
+    def variant_index(self, vt, at):
+        vt = vt.strip_ref()
+        hits = [i for i, a in enumerate(vt.args) if self.same_ctype(a, at)]
+        if len(hits) != 1:
+            raise LoweringError(f'cannot select the alternative of {vt!r} for {at!r}')
+        return hits[0]
+
+    def visit_call(self, n, args):
+        """std::visit(generic lambda, variant): switch over the alternatives, each calling the matching instantiation"""
+        lam = self.strip_to_lambda(args[0])
+        if lam is None or len(args) != 2:
+            raise LoweringError('std::visit form not modelled')
+        vt = self.tyof(args[1]).strip_ref()
+        v = self.ex(args[1])
+        rt = self.tyof(n)
+        if not (rt.kind == 'prim' and rt.name == 'void'):
+            raise LoweringError('std::visit with a result')
+        if self.cond_depth:
+            raise LoweringError('std::visit in conditional operand')
+        vp = self.tmp('__vis')
+        self.pre.append(f'{self.ctype(vt)} *{vp} = {addr(v)};')
+        insts = self.lambda_instantiations(lam)
+        lines = [f'switch ({vp}->index) {{']
+        for i, at in enumerate(vt.args):
+            inst = [x for x in insts if self.same_ctype(x['ptypes'][0].strip_ref(), at)]
+            if len(inst) != 1:
+                raise LoweringError(f'no unique instantiation of the visitor for alternative {i}')
+            call = f'{inst[0]["cname"]}({", ".join(inst[0]["captures"] + [f"&{vp}->_{i}" if inst[0]["ptypes"][0].is_ref() else f"{vp}->_{i}"])})'
+            lines.append(f'  case {i}: {call}; break;')
+            if inst[0]['info'].get('maythrow'):
+                self.cur['maythrow'] = True
+        lines.append('}')
+        self.pre += lines
+        if any(x['info'].get('maythrow') for x in insts):
+            self.pre.append(self.exc_check())
+        return '((void)0)'
 
     def same_ctype(self, a, b):
         try:
